@@ -6,7 +6,7 @@ PROP = "C15"
 MODEL_TARGETS = ["Model/Items.vo", "Model/ItemsObs.vo"]
 THEOREMS = ["C15_contains_iff", "C15_first", "C15_attr", "C15_missing", "C15_get_pure", "C15_get_present",
             "C15_get_add", "C15_set_value_frame", "C15_set_value_fields", "C15_delete_frame", "C15_int",
-            "C15_int_set_item", "C15_slice", "C15_contains_current", "C15_getitem_current"]
+            "C15_int_set_item", "C15_slice", "C15_contains_current", "C15_getitem_current", "C15_delitem_current"]
 ASSUMPTIONS = [
     "hand model of las_items.py (Model/Items.v) tied by correspondence: every generated operation sequence is run on "
     "the real SectionItems and on the model inside Coq; compared: result/exception class of every step, the full "
